@@ -1,6 +1,7 @@
 """C13  Stopping a search really stops it, and each channel follows its protocol."""
 import vlib
 import schedlib
+import stopforget
 
 ID = "C13"
 CLAIMED = True
@@ -51,13 +52,21 @@ PARTIAL = ("slice: histories without incoming datagrams (cache empty): ServiceFo
 HARNESS_ARGS = ["sim"]
 PER_SHARD = 8
 
-project = schedlib.project
-model_input = schedlib.model_input
 nontrivial = schedlib.nontrivial
 
 
+def project(line, raw):
+    return stopforget.project(line, raw) if stopforget.is_sf(line) else schedlib.project(line, raw)
+
+
+def model_input(line, raw):
+    return stopforget.model_input(line, raw) if stopforget.is_sf(line) else schedlib.model_input(line, raw)
+
+
 def generate(rng, tier):
-    return schedlib.generate_histories(rng, tier, ID)
+    # scheduler-slice histories (model + correspondence) plus the model-free
+    # "stop forgets the cached records" family (tools/props/stopforget.py)
+    return schedlib.generate_histories(rng, tier, ID) + stopforget.generate(rng, tier)
 
 
 def known_class(line, impl_result, monitor_result):
